@@ -36,3 +36,56 @@ Theorem C10_span_table_vs_vm :
               (o = OpNativeFunctionPointer -> n = 6 /\ op_span o = 5).
 Proof. exact span_table_vs_vm. Qed.
 Print Assumptions C10_span_table_vs_vm.
+
+(* ---- the compiler model ----
+   Full statement (NOT proved; every conjunct below that is missing from the partial theorem is
+   checked on each real compiler output by wf_check instead):
+
+     Theorem C10_compile_wellformed :
+       forall M o B, module_in_range M -> compile M o = COk B ->
+                     N.of_nat (length (p_bytecode B)) < 2^31 -> wellformed_gen false B.
+
+   where module_in_range says that integer / float literals fit their machine types and all strings
+   of M are valid UTF-8.  It cannot hold with [wellformed] (= wellformed_gen true) because of A-23
+   (C10_A23_witness), nor with trace completeness because of A-24 (C10_A24_witness); the conjunct
+   "ids and names are mutually inverse" additionally needs Handle::from_u32 to be injective on the
+   ids in use.
+
+   Proved: the emission invariants, for ALL modules and card kinds.  In every program the model
+   returns, the bytecode is the encoding of an instruction list that ends with Exit, and every jump
+   operand, every function / closure / card label and every trace key is the first byte of an
+   instruction of that program; the decoder returns exactly that list when the operands are in
+   range.  (Not covered: operand ranges, string operands, local/upvalue/global index ranges, the
+   variables tables.) *)
+From Cao Require Import CompilerWf.
+
+Theorem C10_compile_wellformed_partial :
+  forall (M : module) (o : options) (B : compiled),
+    compile M o = COk B ->
+    (N.of_nat (length (p_bytecode B)) < 2147483648)%N ->
+    exists is : list instr,
+      p_bytecode B = encode is /\
+      (Forall instr_ok is -> decode (p_bytecode B) = Some (positions is)) /\
+      (exists is', is = is' ++ [IExit]) /\
+      (forall i z, In i is -> jump_target i = Some z ->
+                   (0 <= z)%Z /\ In (Z.to_nat z) (map fst (positions is))) /\
+      (forall h pos, In (h, pos) (p_labels B) -> In (N.to_nat pos) (map fst (positions is))) /\
+      (forall a l, In (a, l) (p_trace B) -> In (N.to_nat a) (map fst (positions is))).
+Proof. exact compile_wellformed_partial. Qed.
+Print Assumptions C10_compile_wellformed_partial.
+
+(* the model reproduces finding A-23: a 253-byte string literal compiles into a program that is
+   well-formed except for read_str's window *)
+Theorem C10_A23_witness :
+  exists B, compile (main_module [CStringLiteral (repeat 76%N 253)]) default_options = COk B /\
+            wellformed_gen false B /\ ~ wellformed B.
+Proof. exact a23_witness. Qed.
+Print Assumptions C10_A23_witness.
+
+(* the model reproduces finding A-24: the CloseUpvalue emitted by scope_end has no trace entry *)
+Theorem C10_A24_witness :
+  exists B, compile (main_module [CSetVar [120%N] (CScalarInt 1); CClosure [] [CReadVar [120%N]]])
+                    default_options = COk B /\
+            wellformed B /\ ~ trace_complete B.
+Proof. exact a24_witness. Qed.
+Print Assumptions C10_A24_witness.
